@@ -78,6 +78,6 @@ class Stock(Element):
                     str(self._equation) + ") )"
             else:
                 self._function_string = start_string + \
-                    self._equation.term("t-model.dt") + ") )"
+                    self._equation.term("model.previous_time(t)") + ") )"
         else:
             self._function_string = start_string + ")"
